@@ -35,6 +35,7 @@ func main() {
 	replayDir := flag.String("replays", "/verif/replays", "replay output directory")
 	seed := flag.Int("seed", 0, "seed")
 	keep := flag.Bool("keep", false, "keep SMT files")
+	explainF := flag.String("explain", "", "explain refuted obligations whose name contains this substring")
 	flag.Parse()
 	t0 := time.Now()
 
@@ -158,6 +159,13 @@ func main() {
 	}
 	solveAll(all, cfg)
 	tSolve := time.Since(t0)
+	if *explainF != "" {
+		for _, o := range all {
+			if o.Status == "refuted" && !o.Cover && strings.Contains(o.Name, *explainF) {
+				fmt.Printf("EXPLAIN %s\n%s", o.Name, explain(o, dir))
+			}
+		}
+	}
 
 	rep := &runReport{prop: *prop, tier: *tier, seed: *seed, reports: reports, lemmas: lemmaObls, all: all,
 		baselineFile: *baseline, knownFile: *known, replayDir: *replayDir, evidence: *out, eng: eng,
